@@ -1069,13 +1069,19 @@ class FunctionPlugin(PrimitivePlugin):
             ]
             base_arg_count = len(sds)
 
+            body_fn = callee
+            if inspect.isclass(self.target) and isinstance(callee, self.target):
+                # Trace the decorated class's own __call__ (what the call site
+                # bound), not an override in an undecorated subclass.
+                body_fn = self.target.__call__.__get__(callee, type(callee))
+
             def _wrapped(*all_args: Any) -> Any:
                 core_args = all_args[:base_arg_count]
                 dyn_args = all_args[base_arg_count:]
                 kw = dict(static_params)
                 for dyn_val, entry in zip(dyn_args, dynamic_entries):
                     kw[entry["name"]] = dyn_val
-                return callee(*core_args, **kw)
+                return body_fn(*core_args, **kw)
 
             active = set(_IN_FUNCTION_BUILD.get())
             _IN_FUNCTION_BUILD.set(active | {self.name})
